@@ -262,6 +262,16 @@ func init() {
 		Build: func(c *Ctx) []*an.Oblig {
 			channelRules(c)
 			channelErrs(c)
+			mark13 := len(c.C.List)
+			goxRules(c)
+			onceRules(c)
+			var keep13 []*an.Oblig
+			for i, o := range c.C.List {
+				if i < mark13 || funcHas(o, "(*Channel)") {
+					keep13 = append(keep13, o)
+				}
+			}
+			c.C.List = keep13
 			out := c.sel(func(o *an.Oblig) bool {
 				if isUndecided(o) || o.Rule == "ANCHOR" {
 					return true
